@@ -1430,6 +1430,9 @@ func vqReplay(t *testing.T, run func(u *vqUniverse, w *vqWorker, line []byte, se
 				outMu.Lock()
 				bw.Write(res)
 				bw.WriteByte('\n')
+				if len(lines) <= 4096 {
+					bw.Flush() // small runs (free-running scenarios): keep finished traces if one hangs
+				}
 				outMu.Unlock()
 			}
 		}(w)
@@ -2030,6 +2033,7 @@ type vqNet struct {
 	done   chan struct{}
 	peerCh chan query.Peer
 	peers  map[int]*vqMockPeer
+	byAddr map[string]int
 	wm     query.WorkManager
 	build  func(k string, b int) (wire.Message, string, int)
 	addr   func(p int) string
@@ -2045,6 +2049,7 @@ type vqMockPeer struct {
 	subs   []chan wire.Message
 	script []vqFreeItem
 	end    string
+	once   sync.Once
 }
 
 func (m *vqMockPeer) QueueMessageWithEncoding(msg wire.Message, done chan<- struct{}, _ wire.MessageEncoding) {
@@ -2098,7 +2103,7 @@ func (m *vqMockPeer) run() {
 			}
 		}
 		if end == "disconnect" && script != nil {
-			close(m.quit)
+			m.disconnect()
 			return
 		}
 	}
@@ -2115,42 +2120,31 @@ func newVqNet(build func(k string, b int) (wire.Message, string, int), addr func
 	return n
 }
 
-// arm gives every peer of the call its script, (re)connecting peers that are
-// not connected.
-func (n *vqNet) arm(specs []vqFreePeerSpec) {
+// arm connects a fresh set of peers for one call, each with its script, and
+// disconnects whatever is left of the previous call's peers.  A peer keeps
+// its IP address (its identity for the ban store) across calls and takes a
+// new port, as a reconnecting peer would.
+func (n *vqNet) arm(call int, specs []vqFreePeerSpec) {
+	for _, m := range n.peers {
+		m.disconnect()
+	}
+	n.peers = map[int]*vqMockPeer{}
+	n.byAddr = map[string]int{}
 	for _, sp := range specs {
-		m := n.peers[sp.P]
-		alive := false
-		if m != nil {
-			select {
-			case <-m.quit:
-			default:
-				alive = true
-			}
-		}
-		if !alive {
-			m = &vqMockPeer{net: n, p: sp.P, addr: n.addr(sp.P), quit: make(chan struct{}),
-				reqs: make(chan wire.Message, 4)}
-			n.peers[sp.P] = m
-		}
-		m.mu.Lock()
-		m.script, m.end = append([]vqFreeItem{}, sp.Script...), sp.End
-		m.mu.Unlock()
-		if !alive {
-			go m.run()
-			n.peerCh <- m
-		}
+		host, _, _ := net.SplitHostPort(n.addr(sp.P))
+		addr := net.JoinHostPort(host, strconv.Itoa(18444+call))
+		m := &vqMockPeer{net: n, p: sp.P, addr: addr, quit: make(chan struct{}),
+			reqs: make(chan wire.Message, 4), script: append([]vqFreeItem{}, sp.Script...), end: sp.End}
+		n.peers[sp.P] = m
+		n.byAddr[addr] = sp.P
+		go m.run()
+		n.peerCh <- m
 	}
 }
 
-func (n *vqNet) peerIndex(addr string) int {
-	for p, m := range n.peers {
-		if m.addr == addr {
-			return p
-		}
-	}
-	return 0
-}
+func (m *vqMockPeer) disconnect() { m.once.Do(func() { close(m.quit) }) }
+
+func (n *vqNet) peerIndex(addr string) int { return n.byAddr[addr] }
 
 // tracing work manager: the real one, with every handler call logged
 type vqTraceWM struct {
@@ -2246,14 +2240,14 @@ func (e *bqEnv) runFree(f *vqFree) ([]bqStepOut, error) {
 		close(net.done)
 		_ = twm.Stop()
 	}()
-	for _, call := range f.Calls {
+	for ci, call := range f.Calls {
 		bmu.Lock()
 		tgt = call.Tgt
 		e.last = nil
 		bmu.Unlock()
 		e.ret = vqRUN
 		submitted = false
-		net.arm(call.Peers)
+		net.arm(ci, call.Peers)
 		hash := e.u.hashOf(call.Tgt, e.nb)
 		var blk *btcutil.Block
 		var err error
@@ -2377,7 +2371,7 @@ func (e *fqEnv) runFree(f *vqFree) ([]fqStepOut, error) {
 		}
 		cur = fqAct{C: i + 1, Tgt: call.Tgt, M: call.M, Cap: call.Cap}
 		gate, lo, hi = "", vqRUN, vqRUN
-		net.arm(call.Peers)
+		net.arm(i, call.Peers)
 		opts := []QueryOption{NumRetries(uint8(call.Retries))}
 		switch call.M {
 		case "fwd":
